@@ -802,6 +802,10 @@ func (e *Engine) OwnershipViolations() (checked []string, bad []string) {
 					ok = true
 				}
 			}
+			if !ok && e.onlyCalledFrom(root, allowed, 3) {
+				// a private helper that runs only as part of the listed functions
+				ok = true
+			}
 			if !ok {
 				bad = append(bad, fmt.Sprintf("owns %s: %s stores to the field but is not among %v", tf, funcNames(root)[1], d.Owns))
 			}
@@ -814,4 +818,65 @@ func (e *Engine) OwnershipViolations() (checked []string, bad []string) {
 	sort.Strings(checked)
 	sort.Strings(bad)
 	return
+}
+
+// onlyCalledFrom: w is an unexported function that is only ever called directly (never
+// started as a goroutine, deferred past its caller is fine, never taken as a value), and
+// every caller is one of the allowed functions or such a helper itself.
+func (e *Engine) onlyCalledFrom(w *ssa.Function, allowed map[string]bool, depth int) bool {
+	if depth == 0 || w.Object() == nil || w.Object().Exported() {
+		return false
+	}
+	callers := 0
+	for fn := range e.allFuncs {
+		if fn.Blocks == nil {
+			continue
+		}
+		root := fn
+		for root.Parent() != nil {
+			root = root.Parent()
+		}
+		for _, b := range fn.Blocks {
+			for _, in := range b.Instrs {
+				uses := false
+				for _, op := range in.Operands(nil) {
+					if op != nil && *op == ssa.Value(w) {
+						uses = true
+					}
+				}
+				if !uses {
+					continue
+				}
+				var cc *ssa.CallCommon
+				switch x := in.(type) {
+				case *ssa.Call:
+					cc = &x.Call
+				case *ssa.Defer:
+					cc = &x.Call
+				}
+				if cc == nil || cc.IsInvoke() || cc.Value != ssa.Value(w) {
+					return false // goroutine, method value, stored in a variable...
+				}
+				for _, a := range cc.Args {
+					if a == ssa.Value(w) {
+						return false
+					}
+				}
+				callers++
+				if root == w {
+					continue
+				}
+				ok := false
+				for _, n := range funcNames(root) {
+					if allowed[n] {
+						ok = true
+					}
+				}
+				if !ok && !e.onlyCalledFrom(root, allowed, depth-1) {
+					return false
+				}
+			}
+		}
+	}
+	return callers > 0
 }
